@@ -93,6 +93,20 @@ var handlers = map[string]handler{}
 // maxRatio tracks the largest observed |error|/allowance per routine (evidence only).
 var maxRatio = map[string]float64{}
 
+// failOnce reports a disagreement under its signature once per process; further cases with the same
+// signature are only counted (tools/check keeps a bounded number of violations per run, and every
+// distinct signature has to stay visible).
+var failedSigs = map[string]bool{}
+
+func failOnce(sum *core.Summary, sig, msg string, c any) {
+	if failedSigs[sig] {
+		sum.Count("further_failures:"+sig, 1)
+		return
+	}
+	failedSigs[sig] = true
+	sum.Fail(sig, msg, c)
+}
+
 func noteRatio(name string, r float64) {
 	if r > maxRatio[name] {
 		maxRatio[name] = r
